@@ -8,6 +8,9 @@
   the unmodelled components) is monitored by ASan/UBSan on every correspondence
   run of every property (partial).
 -/
+import CSD.Lemmas.HashBuild
+import CSD.Lemmas.RPDACPrefix4
+import CSD.Lemmas.DAC
 import CSD.Generated.Bodies
 import CSD.Model.SourceText
 import CSD.Lemmas.PFCIter
@@ -75,6 +78,29 @@ theorem containers_in_bounds :
   · intro occs h; rw [Dups.drain_all occs h]; rfl
 
 example : validDict [[0x61], [0x62]] = true := by decide
+
+/-- Hash kinds: every probe of `insert` / `locate` addresses a cell of the table
+(`(hval + i·h2) % tsize < tsize`), whatever the string and the probe number. -/
+theorem hash_probe_in_bounds (m : Nat) (hm : 0 < m) (w : Str) (i : Nat) : Hash.pr m w i < m :=
+  Hash.pr_lt m hm w i
+
+/-- DAC_VLS: `access` of every stored position reads only inside `levels`, the bitmap, `levelsIndex` and
+`rankLevels` (a read outside is `none` in the model; the result is `some`). -/
+theorem dac_access_in_bounds (L : List (List Nat)) (hall : ∀ s ∈ L, s ≠ []) (i : Nat) (hi : i < L.length) :
+    (DAC.access (DAC.build L) (i + 1)).isSome = true := by
+  rw [DAC.access_build L i hi hall]; rfl
+
+/-- Re-Pair comparisons (`extractStringAndCompareDAC`, `extractPrefixAndCompareDAC`): every read of the
+caller's pattern stays inside `pattern ++ NUL` (a read outside is `none`; the results are `some`). -/
+theorem rpdac_compare_in_bounds (g : RePair.Grammar) (hwf : g.wf = true) (syms : List Nat)
+    (hval : ∀ s ∈ syms, s < g.terminals + g.rules.length) (s q : Str)
+    (hexp : g.expand syms = RPDAC.bytesNat s) (hs : PFC.nulFree s) (hq : PFC.nulFree q) :
+    (RPDAC.compareDAC g syms (RPDAC.bytesNat q)).isSome = true ∧
+    (q ≠ [] → (RPDAC.comparePrefixDAC g syms (RPDAC.bytesNat q)).isSome = true) := by
+  constructor
+  · rw [RPDAC.compareDAC_eq g hwf syms hval s q hexp hs hq]; rfl
+  · intro hne
+    rw [RPDAC.comparePrefixDAC_eq g hwf syms hval s q hexp hs hq hne]; rfl
 
 /-- The models this file's theorems are about were written against the current text of the C++
 functions they mirror (`CSD/Generated/Bodies.lean` is re-extracted from the sources on every run,
